@@ -319,7 +319,9 @@ def process_case(rep, spec, index, tmp):
     try:
         for s in range(n_saves):
             kinds = proc.KINDS[:2] if rng.random() < 0.7 else proc.KINDS[2:]
-            sc = proc.Scenario(rng, kinds=kinds, builtin_only=True, max_steps=8, nonideal_orders=0)
+            # no numpy-integer scalars here: json cannot serialise them, so Conditions.safe_save of the pinned library raises
+            # TypeError (loudly, nothing is written wrongly); they are outside the objects C17 quantifies over
+            sc = proc.Scenario(rng, kinds=kinds, builtin_only=True, max_steps=8, nonideal_orders=0, narrow_ints=False)
             st, model = sc.run()
             safe = rng.random() < 0.5
             case = dict(case0, save_no=s, scenario=sc.describe(), is_safe=safe)
